@@ -625,8 +625,9 @@ pub fn run_c16(cfg: &Cfg) {
     for ci in 0..ncases {
         let which = ci % 8;
         let ext = rng.coin();
-        let lanes = 1 + rng.below(3) as usize;
-        let trail = if lanes == 1 && rng.coin() { vec![] } else { vec![lanes] };
+        // 0-2 trailing axes (square and non-square lane blocks: per-lane boundary arrays of rank 3)
+        let trail: Vec<usize> = match rng.below(7) { 0 => vec![], 1 => vec![1], 2 => vec![2], 3 => vec![3], 4 => vec![2, 2], 5 => vec![2, 3], _ => vec![3, 2] };
+        let lanes: usize = trail.iter().product();
         // per-lane polynomial
         let mut polys: Vec<[f64; 4]> = vec![];
         let (n, label): (usize, &str);
